@@ -115,9 +115,11 @@ fn main() {
 				Some(Box::new(move |cov, viols| {
 					// real-process leg in a subprocess (it installs signal handlers)
 					let exe = std::env::current_exe().expect("exe");
-					let out = std::process::Command::new(exe).args(["C08", "--real-leg", "--tier", tier.name()]).output();
-					let Ok(o) = out else {
-						cov.insert("real_process_leg".into(), serde_json::json!("not run"));
+					let mut cmd = std::process::Command::new(exe);
+					cmd.args(["C08", "--real-leg", "--tier", tier.name()]);
+					let Some(o) = orch::output_with_timeout(cmd, if tier == Tier::Quick { 120 } else { 600 }) else {
+						cov.insert("real_process_leg".into(), serde_json::json!("not completed within its wall limit (no verdict from this leg)"));
+						eprintln!("MACHINERY-WARNING property=C08 real-process leg did not complete");
 						return;
 					};
 					let text = String::from_utf8_lossy(&o.stdout).to_string();
